@@ -167,6 +167,27 @@ class World:
         self.lines.append(('rm %d %d' % (i, j), m.split('|')[0], r))
         return m.split('|')[0], r
 
+    def obs(self, i):
+        """both child views (ids) and the required-children verdict, as the matcher engine observes them"""
+        o = self.objs[i]
+        inv = {id(x): k for k, x in self.objs.items()}
+        def ids(l):
+            return ','.join(str(inv.get(id(c), '?')) for c in l)
+        (s, oc), out = quiet(o.get_children)
+        if s != 'ok':
+            r = 'o=' + exc_enum(oc, 'obs')
+        else:
+            u = o.get_children(ordered=False)
+            if o.xsd_check and o.child_container_tree:
+                (s2, rq), out2 = quiet(o.child_container_tree.get_required_element_names, False)
+                rs = ','.join(str(x) for x in req_names(rq)) if s2 == 'ok' else exc_enum(rq, 'check')
+            else:
+                rs = ''
+            r = 'o=%s u=%s r=%s' % (ids(oc), ids(u), rs)
+        m = self._m('obs %d' % i)
+        self.lines.append(('obs %d' % i, m.split('|')[0], r))
+        return m.split('|')[0], r
+
     def repl(self, i, old, new):
         p, o, n = self.objs[i], self.objs[old], self.objs[new]
         (s, e), out = quiet(p.replace_child, o, n)
@@ -341,6 +362,7 @@ def doc_case(drv, rnd, cls=None, depth=2, mixed_chk=False, mutate=True, copy=Fal
                     m0, r0 = w.newe(j, ncls, True, pick_value(ncls, rnd, True), pick_attrs(ncls, rnd, True, 0))
                     if r0 == 'ok' and m0 == 'ok':
                         w.repl(i, inv[id(ch)], j)
+                        w.obs(i)
                         ids[:] = list(w.objs)
             elif r < 0.7:
                 tbl = ATTRS.get(type(o).__name__)
@@ -365,6 +387,7 @@ def doc_case(drv, rnd, cls=None, depth=2, mixed_chk=False, mutate=True, copy=Fal
                 else:
                     v = pick_value(ccls, rnd, rnd.random() < 0.8) if ccls is not None else 1
                     w.dotx(i, key, fresh1, v)
+                w.obs(i)
                 ids[:] = list(w.objs)
             else:
                 w.tostr(i, rnd.random() < 0.2)
